@@ -650,6 +650,19 @@ type File struct {
 	Guarded     []GuardSpec
 	GlobalInvs  []*Clause
 	Lemmas      []*LemmaDef
+	Writers     []*WritersSpec
+}
+
+// WritersSpec: the listed fields of a struct type are written only inside the listed functions (checked by a
+// module-wide scan); calls that cannot reach one of those functions therefore leave the fields unchanged.
+type WritersSpec struct {
+	Props  []string
+	Label  string
+	Type   string
+	Fields []string // empty = all fields
+	Only   []string
+	Line   int
+	File   string
 }
 
 // LemmaDef: a named, closed fact over spec functions, proved once (optionally by induction on one integer
@@ -678,7 +691,7 @@ type GuardSpec struct {
 var clauseKeywords = map[string]bool{
 	"func": true, "props": true, "trusted": true, "pure": true, "ghost": true, "requires": true, "ensures": true,
 	"assigns": true, "may_panic": true, "loop": true, "axiom": true, "lemma": true, "ghostfield": true, "cover": true,
-	"use": true, "callback": true, "cut": true, "structural": true, "inline": true, "guarded_by": true, "hint": true, "spec": true, "globalinv": true,
+	"writers": true, "use": true, "callback": true, "cut": true, "structural": true, "inline": true, "guarded_by": true, "hint": true, "spec": true, "globalinv": true,
 }
 
 // splitLabel parses an optional "[P1,P2:label]" prefix.
@@ -874,6 +887,30 @@ func ParseFile(path string) (*File, error) {
 				}
 				cur.Assigns = append(cur.Assigns, es...)
 			}
+		case "writers":
+			// writers [props:label] Type fields f1,f2 only fn1,fn2
+			props, label, r := splitLabel(rest)
+			fs := strings.Fields(r)
+			ws := &WritersSpec{Props: props, Label: label, Line: rl.line, File: path}
+			if len(fs) < 3 {
+				return nil, fmt.Errorf("%s:%d: bad writers clause", path, rl.line)
+			}
+			ws.Type = fs[0]
+			k := 1
+			if fs[k] == "fields" {
+				if fs[k+1] != "*" {
+					ws.Fields = strings.Split(fs[k+1], ",")
+				}
+				k += 2
+			}
+			if k < len(fs) && fs[k] == "only" {
+				for _, n := range strings.Split(strings.Join(fs[k+1:], ""), ",") {
+					if n != "" {
+						ws.Only = append(ws.Only, n)
+					}
+				}
+			}
+			f.Writers = append(f.Writers, ws)
 		case "use":
 			c, err := mkClause(rest, rl.line)
 			if err != nil {
